@@ -11,6 +11,11 @@ func sameFailure(ps *PropSpec, tr *Trace, class string) bool {
 }
 
 func safeReplay(ps *PropSpec, tr *Trace) (res *RunResult) {
+	return safeReplayInto(ps, tr, NewStats())
+}
+
+// safeReplayInto is safeReplay with the caller's statistics (directed scenarios count in the evidence).
+func safeReplayInto(ps *PropSpec, tr *Trace, agg *Stats) (res *RunResult) {
 	defer func() {
 		if r := recover(); r != nil {
 			res = nil
@@ -18,7 +23,7 @@ func safeReplay(ps *PropSpec, tr *Trace) (res *RunResult) {
 	}()
 	cp := *tr
 	cp.Steps = append([]Step(nil), tr.Steps...)
-	return ps.Replay(ps, &cp, NewStats())
+	return ps.Replay(ps, &cp, agg)
 }
 
 // Shrink returns a minimised copy of tr that still fails with the same class.
